@@ -17,7 +17,7 @@ Record hobs := HObs {
 (* one header value driven through a sequence of operations; then All() of the final header, and All() of a fresh
    header of the same type and flags after Read() of the serialised final header (None = Read returned an error) *)
 Inductive c29case :=
-| CHdr (isresp nonorm nodefct strict : bool) (probes : list bytes) (steps : list (hop * hobs))
+| CHdr (isresp nonorm nodefct : bool) (probes : list bytes) (steps : list (hop * hobs))
        (final_all : kvs) (reread : option kvs).
 
 Definition kv_eqb : (bytes * bytes) -> (bytes * bytes) -> bool := pair_eqb beq beq.
@@ -65,7 +65,7 @@ Fixpoint qcorr (q : req) (probes : list bytes) (steps : list (hop * hobs)) : boo
 
 Definition corr_ok (c : c29case) : bool :=
   match c with
-  | CHdr isresp nonorm nodefct _ probes steps final_all _ =>
+  | CHdr isresp nonorm nodefct probes steps final_all _ =>
       if isresp then
         let '(ok, r) := rcorr (rinit nonorm nodefct) probes steps in ok && list_eqb kv_eqb (RAll r) final_all
       else
@@ -79,19 +79,8 @@ Definition corr_ok (c : c29case) : bool :=
 Definition sop_of (o : hop) : sop :=
   match o with HSet k v => SSet k v | HAdd k v => SAdd k v | HDel k => SDel k | HCopy => SCopy end.
 
-(* the two tolerated known findings (only when the case is not `strict`):
-   K2  PeekAll of an unset Content-Length / Cookie / Set-Cookie / Trailer returns one empty value
-   K3  All() still yields an older Connection value next to "close" *)
-Definition k2cls (t : htype) (c : bytes) : bool :=
-  match cls_of t c with CNum | CJar | CSetCookie | CTrailer => true | _ => false end.
-Definition is_one_empty (l : list bytes) : bool := match l with [[]] => true | _ => false end.
-Definition peekall_ok (strict : bool) (t : htype) (c : bytes) (impl spec : list bytes) : bool :=
-  list_eqb beq impl spec
-  || (negb strict && k2cls t c && match spec with [] => is_one_empty impl | _ => false end).
-Definition allvals_ok (strict : bool) (c : bytes) (impl spec : list bytes) : bool :=
-  list_eqb beq impl spec
-  || (negb strict && beq c strConnection && list_eqb beq spec [strClose]
-      && match rev impl with x :: _ => beq x strClose | [] => false end).
+Definition peekall_ok (impl spec : list bytes) : bool := list_eqb beq impl spec.
+Definition allvals_ok (impl spec : list bytes) : bool := list_eqb beq impl spec.
 
 Definition vals_of (l : kvs) (c : bytes) : list bytes := map snd (filter (fun e => beq (fst e) c) l).
 
@@ -104,9 +93,9 @@ Fixpoint forall2b {A B} (f : A -> B -> bool) (l : list A) (r : list B) : bool :=
 
 Definition cl_of (m : mm) : Z := match mm_vals m strContentLength with v :: _ => dec_value v | [] => 0%Z end.
 
-Definition obs_agrees (strict : bool) (t : htype) (nonorm nodefct : bool) (probes : list bytes) (m : mm) (o : hobs) : bool :=
+Definition obs_agrees (t : htype) (nonorm nodefct : bool) (probes : list bytes) (m : mm) (o : hobs) : bool :=
   forall2b (fun k p => let c := canon nonorm k in
-                       beq (fst p) (spec_peek t nodefct m c) && peekall_ok strict t c (snd p) (spec_peek_all t nodefct m c))
+                       beq (fst p) (spec_peek t nodefct m c) && peekall_ok (snd p) (spec_peek_all t nodefct m c))
            probes (o_probe o)
   && list_eqb beq (o_get o)
        (match t with
@@ -118,38 +107,36 @@ Definition obs_agrees (strict : bool) (t : htype) (nonorm nodefct : bool) (probe
   && match o_all o with
      | None => true
      | Some (l, keys, n) =>
-         forallb (fun c => allvals_ok strict c (vals_of l c) (spec_all_vals t nodefct m c))
+         forallb (fun c => allvals_ok (vals_of l c) (spec_all_vals t nodefct m c))
                  (map fst l ++ map fst m ++ [strContentType])
          && list_eqb beq keys (map fst l) && (n =? Z.of_nat (length l))%Z
      end.
 
 (* "deleting or setting one name never changes the values, or their order, under another name",
    directly on two consecutive observations *)
-Definition k2norm (strict : bool) (t : htype) (c : bytes) (l : list bytes) : list bytes :=
-  if negb strict && k2cls t c && is_one_empty l then [] else l.
-Definition untouched (strict : bool) (t : htype) (nonorm : bool) (probes : list bytes) (o : hop) (prev cur : hobs) : bool :=
+Definition untouched (nonorm : bool) (probes : list bytes) (o : hop) (prev cur : hobs) : bool :=
   let opkey := match o with HSet k _ | HAdd k _ | HDel k => Some (canon nonorm k) | HCopy => None end in
   forall2b (fun k pc =>
               let c := canon nonorm k in
               match opkey with
               | Some ck => if beq ck c then true
                            else beq (fst (fst pc)) (fst (snd pc))
-                                && list_eqb beq (k2norm strict t c (snd (fst pc))) (k2norm strict t c (snd (snd pc)))
+                                && list_eqb beq (snd (fst pc)) (snd (snd pc))
               | None => beq (fst (fst pc)) (fst (snd pc))
-                        && list_eqb beq (k2norm strict t c (snd (fst pc))) (k2norm strict t c (snd (snd pc)))
+                        && list_eqb beq (snd (fst pc)) (snd (snd pc))
               end)
            probes (combine (o_probe prev) (o_probe cur))
   || negb (Nat.eqb (length (o_probe prev)) (length (o_probe cur))).
 
-Fixpoint prop_steps (strict : bool) (t : htype) (nonorm nodefct : bool) (probes : list bytes) (m : mm)
+Fixpoint prop_steps (t : htype) (nonorm nodefct : bool) (probes : list bytes) (m : mm)
          (prev : option hobs) (steps : list (hop * hobs)) : bool :=
   match steps with
   | [] => true
   | (o, ob) :: rest =>
       let m' := sstep t nonorm m (sop_of o) in
-      obs_agrees strict t nonorm nodefct probes m' ob
-      && match prev with Some p => untouched strict t nonorm probes o p ob | None => true end
-      && prop_steps strict t nonorm nodefct probes m' (Some ob) rest
+      obs_agrees t nonorm nodefct probes m' ob
+      && match prev with Some p => untouched nonorm probes o p ob | None => true end
+      && prop_steps t nonorm nodefct probes m' (Some ob) rest
   end.
 
 (* ---- write, then read back ---- *)
@@ -183,8 +170,8 @@ Definition roundtrip_ok (t : htype) (nodefct : bool) (before : kvs) (reread : op
 
 Definition prop_ok (c : c29case) : bool :=
   match c with
-  | CHdr isresp nonorm nodefct strict probes steps final_all reread =>
+  | CHdr isresp nonorm nodefct probes steps final_all reread =>
       let t := if isresp then HResp else HReq in
-      prop_steps strict t nonorm nodefct probes [] None steps
+      prop_steps t nonorm nodefct probes [] None steps
       && roundtrip_ok t nodefct final_all reread
   end.
